@@ -205,6 +205,11 @@ def replay(path):
     if d.get("how"):
         from . import fillpart
         return fillpart.replay_row(d)
+    if d.get("kind") == "stress":
+        r = stress_part(d["property"], "quick", 1)
+        for l in r["lines"]:
+            print(l)
+        return 1 if r["nviol"] else 0
     if d.get("kind") == "twins":
         r = twins_part(d["property"], "quick", 1)
         for l in r["lines"]:
@@ -379,6 +384,48 @@ def twins_part(prop, tier, seed):
         shutil.rmtree(wd, ignore_errors=True)
 
 
+def stress_part(prop, tier, seed):
+    """Two consequences of BarState.tla + linearizability that only thousands of overlapping calls can break: the counter is
+    monotone under increments and SetTotal(-1, .) (AdoptKeepsCounter), Completed() is stable (CompletedStable)."""
+    import subprocess
+    from concurrent.futures import ThreadPoolExecutor
+    t0 = time.time()
+    wd = core.workdir(prop + "s")
+    try:
+        binary = core.build_harness(wd)
+        workers, trials = (8, 60) if tier == "quick" else (16, 1200)
+
+        def one(i):
+            outp = os.path.join(wd, "stress-%d.out" % i)
+            p = subprocess.run([binary, "-test.run", "^TestStress$", "-test.timeout", "0"], capture_output=True, text=True, timeout=3000,
+                               env=dict(os.environ, VH_OUT=outp, VH_SEED=str(seed * 100 + i), VH_N=str(trials)))
+            rows = [json.loads(l) for l in open(outp)] if os.path.exists(outp) else []
+            if not rows or "done" not in rows[-1]:
+                raise core.Infra("TestStress did not finish: " + (p.stdout + p.stderr)[-1500:])
+            return rows
+        bad, done = [], 0
+        with ThreadPoolExecutor(max_workers=workers) as ex:
+            for rows in ex.map(one, range(workers)):
+                done += rows[-1]["done"]
+                bad += rows[:-1]
+        lines = []
+        os.makedirs(os.path.join(core.ROOT, "replays"), exist_ok=True)
+        for k, b in enumerate(bad[:5]):
+            path = os.path.join(core.ROOT, "replays", "%s-stress-%d.json" % (prop, k))
+            json.dump({"property": prop, "kind": "stress", "rule": "stress-" + b["kind"], "msg": b["msg"]}, open(path, "w"))
+            lines.append("VIOLATION property=%s replay=%s rule=%s %s" % (prop, path, "counter-goes-down" if b["kind"] == "mono" else "completed-unstable", b["msg"][:200]))
+        cov = {"states": 0, "transitions": 0, "traces_validated_against_impl": done, "evaluations": done, "distinct_nontrivial": done,
+               "samples": [{"trials": done}], "exhaustive": False,
+               "rule": "%d trials: 4 workers increment and read the counter of one bar while SetTotal(-1, true) arrives at a random moment (the counter "
+                       "never goes down); 2 workers take a bar to its total while Abort arrives at a random moment and 2 readers poll Completed() (once "
+                       "true, always true); a slow decorator keeps the bar's goroutine busy" % done,
+               "checker_cmd": "tlc MCBarState.tla (AdoptKeepsCounter, CompletedStable) ; harness.test TestStress"}
+        lines.append("%s %s stress: %d trials, %d violations, %.1fs" % (prop, tier, done, len(bad), time.time() - t0))
+        return {"cov": cov, "lines": lines, "nviol": len(bad), "assume": ["the overlaps occur often enough within the trials (16 cores)"]}
+    finally:
+        shutil.rmtree(wd, ignore_errors=True)
+
+
 def api_part(prop, tier, seed):
     from . import fillpart
     return fillpart.table(prop, tier, seed, "Api.tla", "Api.cfg", "Api.cfg", "TestApiCases", "API",
@@ -438,7 +485,7 @@ def term_part(prop, tier, seed):
         obad, st2, tr2, _ = core.run_obs(traces, wd)
         states += st2
         trans += tr2
-        f11 = {b["tr"] for b in obad if b["r"] == "popped-not-on-top/priority-changed-before-pop"}
+        f11 = {b["tr"] for b in obad if b["r"] in ("popped-not-on-top/priority-changed-before-pop", "popped-not-on-top/priority-below-pop-range")}
         # the terminal path on a real pseudo terminal
         progs = gen.pty_programs(seed, 60 if tier == "quick" else 1200)
         inp, outp = os.path.join(wd, "pty.in"), os.path.join(wd, "pty.out")
@@ -471,7 +518,7 @@ def term_part(prop, tier, seed):
             lines.append("VIOLATION property=%s replay=%s rule=%s frame=%s %s" % (prop, path, b["r"], b["k"], b["info"][:160]))
         if known:
             f = next(x for x in FINDINGS if x["id"] == "F11")
-            lines.append("KNOWN-FINDING: property=%s F11: %s (%d frames in %d executions; screen rule not-in-place)" % (prop, f["what"][:160], known, len(f11)))
+            lines.append("KNOWN-FINDING: property=%s F11/F12: %s (%d frames in %d executions; screen rule not-in-place)" % (prop, f["what"][:160], known, len(f11)))
         cov = {"states": states, "transitions": trans, "traces_validated_against_impl": len({e["tr"] for e in evs}) + len(progs),
                "samples": [evs[0] if evs else {}, pevs[0] if pevs else {}], "evaluations": len(evs) + len(pevs),
                "distinct_nontrivial": len({json.dumps([l["s"].split("#")[0] for l in e["lines"]]) + str(e["cuu"]) + str(e["h"]) for e in evs + pevs if e["nrows"] > 0}),
@@ -614,7 +661,8 @@ for _p in CORE_CFGS:
 PARTS["C04"] = [term_part, sched_part]
 PARTS["C02"] = PARTS["C02"] + [api_part]
 PARTS["C04"] = PARTS["C04"] + [twins_part]
-PARTS["C10"] = PARTS["C10"] + [twins_part]
+PARTS["C10"] = PARTS["C10"] + [twins_part, stress_part]
+PARTS["C11"] = PARTS["C11"] + [stress_part]
 PARTS["C18"] = [sched_part, term_part]
 PARTS["C07"] = [fill_part]
 PARTS["C08"] = [fill_part]
